@@ -8,7 +8,7 @@
 (*         with the library's incremental matcher over the FULL tree),      *)
 (*         mapv, rewriteUid, calls:[raw, uid]}                              *)
 (***************************************************************************)
-EXTENDS WalkRef, FilterRef, FollowRef, Json, IOUtils, TLC
+EXTENDS WalkRef, FilterRef, FollowRef, TarRef, Json, IOUtils, TLC
 
 Trace == ndJsonDeserialize(IOEnv.VERIF_TRACE)
 VARIABLES l, failed
@@ -46,7 +46,8 @@ FollowJudge(e) ==
           \cup (IF e.syncFailed THEN {"C18.transferWithFollowPathsFailed"} ELSE {})
 
 Judge(e) ==
-  IF e.ev = "Follow" THEN FollowJudge(e)
+  IF e.ev = "Tar" THEN Pfx("C17", TarClauses(e) \cup (IF e.writeErr THEN {} ELSE ExtractClauses(e)))
+  ELSE IF e.ev = "Follow" THEN FollowJudge(e)
   ELSE IF e.ev = "Walk" THEN Pfx("C09", WalkClauses(e.calls, e.tree, e.api = "FSsub")) \cup (IF e.walkErr THEN {"C09.walkReturnedError"} ELSE {})
   ELSE IF e.ev = "Filter" THEN FilterClauses(e)
   ELSE {"HARNESS.unknownEvent"}
